@@ -204,7 +204,7 @@ PROPS["C04"] = {
 
 NOT_APPLICABLE = {
     "C13": "pure arithmetic on (timestamp, interval): no schedule, clock, fault or crash point in the quantifier for a simulator to own; its code runs inside the C04/C07/C11 harnesses",
-    "C14": "encode/decode are pure functions; pooled-object reuse is owned by the simulator only as a nondeterminism source of other harnesses, not as a fault of this property",
+    "C14": "encode/decode are pure functions of the value/slot sequence, and a reuse history of a pooled encoder/decoder is a sequential operation sequence on one goroutine: there is no schedule, clock, fault or crash point for a simulator to decide (that is input/sequence generation, another technique). The simulator's sync.Pool is a per-run LIFO that always hands back the object released last, so the codecs do run in their reused state inside the C03/C04/C07/C11 harnesses (flush, merge, rollup, query decode), but that is not a decision of this property",
     "C15": "pure function of the key/value sequence; the crash/concurrency aspects of tables are C01/C02",
     "C16": "pure per-batch conversion and routing; no concurrency, time or I/O in the statement",
     "C17": "pure parse/marshal/unmarshal round trip",
